@@ -43,14 +43,35 @@ OPEN_STATEMENTS = [
     'raises possibly another error; "same solution" is stated for every node-blind reading `elem` of components as branch records '
     '(the library\'s own reading, the transformer table of group Circuit, is not instantiated) and for circuits with at least one '
     'component; that the renaming fixes the names given by node symbols is not proved (C13_named gives it per symbol)',
-    'per-kind translation (kind, values, polarity of every symbol) against an independent Spec of the symbols: generated tables '
-    '(C13_polarity, C13_tables) + correspondence + intended-netlist oracle, no theorem',
-    'reference node: Circuit.ground_node / ground_label is the name of the node the ground symbol sits on — oracle only '
-    '(C13_gen_ground ties the model function to the code, no Spec statement about it)',
+    'per-kind translation against the independent Spec of the symbols (CC/Spec/DrawSymbols.lean): NOW THEOREMS '
+    '(CC/Properties/C13Symbols.lean: C13_symbols, C13_symbols_translate, C13_symbols_cover — every named class of the generated '
+    'table, all admissible user parameter values, both reversal flags: construct ∘ translate = the Spec component). Still open / '
+    'not covered: (a) THREE DISAGREEMENTS between the generated table and the Spec, proved as theorems about the model and '
+    'excluded from C13_symbols by C13_Judged — Admittance has no translator (C13_sym_admittance_untranslated, known observation); '
+    'RealVoltageSource / RealCurrentSource with reverse=True swap the terminals AND negate the amplitude, i.e. are electrically '
+    'not reversed (C13_sym_real_reversed, _ne; outside the quantifier text of C13, noted before); Rect/Triangle/Sawtooth '
+    'Voltage/CurrentSource accept sin=True and ignore it, no −π/2 (C13_sym_periodic_sin_ignored, _ne; NEW, confirmed on the real '
+    'code; the oracle never generates sin for these kinds); (b) the float evaluation of phi*pi/180 (model exact over ℚ, π a '
+    'rational parameter; compared with 1e-12 by the correspondence); (c) values outside SymSpec.Admissible (constructors raise: '
+    'correspondence only); (d) `name` passed positionally (open finding, oracle); (e) that the model interpreters + generated '
+    'tables ARE the Python translators / constructors: by generation + correspondence, as before',
+    'reference node: NOW THEOREMS (CC/Properties/C13Ground.lean: C13_ground, C13_ground_name, C13_two_grounds, C13_no_ground, '
+    'C13_no_ground_differ). Still assumed: C13_DrawingWF; C13_ground speaks about Circuit.ground_node only IF circuit_translator '
+    'returns (success of the other symbols is not claimed); with two ground symbols the precise error of circuit_translator is '
+    'MultipleGroundNodes only when every symbol translates (else the first failing symbol raises first); without a ground '
+    'symbol Circuit.ground_node (first terminal of the first component) and parser.ground_label (first unique node in set order) '
+    'are different things and can disagree (C13_no_ground_differ) — outside the quantifier ("one ground"), observation',
 ]
 # the parser model *is* DiagramParser.py: every method, translated statement by statement
 # (harness/extract_drawparser.py → CC/Gen/DrawParser.lean), equals the hand-written model function
-LEAN_MODULE_EXTRA = ['CC.Properties.C13Gen', 'CC.Properties.C13Invariance']
+LEAN_MODULE_EXTRA = ['CC.Properties.C13Gen', 'CC.Properties.C13Invariance', 'CC.Properties.C13Ground', 'CC.Properties.C13Symbols']
+# round 5b: reference node (C13Ground) and per-kind translation against the independent Spec CC/Spec/DrawSymbols.lean (C13Symbols)
+THEOREMS += [
+    'CC.C13_isGround_iff', 'CC.C13_ground', 'CC.C13_ground_name', 'CC.C13_two_grounds', 'CC.C13_no_ground', 'CC.C13_no_ground_differ',
+    'CC.C13_symbols', 'CC.C13_symbols_translate', 'CC.C13_symbols_cover', 'CC.C13_closedSwitchOhms', 'CC.C13_sym_ground_default',
+    'CC.C13_sym_admittance_untranslated', 'CC.C13_sym_real_reversed', 'CC.C13_sym_real_reversed_ne',
+    'CC.C13_sym_periodic_sin_ignored', 'CC.C13_sym_periodic_sin_ne',
+]
 # round 5: the metamorphic statements lifted from `Joined` to the translated circuit and composed with C03
 THEOREMS += [
     'CC.C13_moved', 'CC.C13_rigid_maps_injective', 'CC.C13_moved_raw', 'CC.C13_split', 'CC.C13_perm', 'CC.C13_perm_ok_iff',
